@@ -8,7 +8,7 @@ from common import finish
 
 def run_numeric(ctx, sim, sim_num_quick, sim_num_thorough, exhaustive=None, e_sample_quick=None,
                 cse_settings=(False, True), rule="", scope="", assumptions=None, key_prefix="", force_ekf=False,
-                post=None, timeout=120):
+                post=None, timeout=120, repo_tests=False):
     quick = ctx.quick
     scns, stats = scen.generate(ctx, exhaustive, sim, sim_num=(sim_num_quick if quick else sim_num_thorough),
                                 sim_depth=90, e_sample=(e_sample_quick if quick else None))
@@ -23,6 +23,9 @@ def run_numeric(ctx, sim, sim_num_quick, sim_num_thorough, exhaustive=None, e_sa
     results = scen.replay_all(ctx, scns, cse_settings=cse_settings, timeout=timeout, force_ekf=force_ekf)
     counters = scen.record_results(ctx, results, key_prefix=key_prefix)
     extra = post(ctx, scns, results) if post else {}
+    if repo_tests and not quick:
+        import repotests          # thorough tier: the repository's own tests, recorded and validated against EKFCalls.tla
+        extra["repo_tests"] = repotests.run(ctx, ctx.prop)
     defs = {}
     for s in scns:
         d = Definition(s["def"])
